@@ -74,10 +74,20 @@ def _variables(v):
     return dict(_VARS[v])
 
 
+_MODE = {'compat': False}
+
+
+def mkparser(v):
+    """fresh parser; XPath 2.0+ optionally in XPath 1.0 compatibility mode (same grammar, different semantics)"""
+    if _MODE['compat'] and v != '1.0':
+        return PARSERS[v](compatibility_mode=True)
+    return PARSERS[v]()
+
+
 def eparse(v, text, raw=False):
     """-> ('ok', token, mode) | ('syntax',) | ('err', code) | ('exc', type, where)
     mode 'full' = parser.parse(); 'raw:<code>' = tdop-level parse after parse() failed in static evaluation"""
-    p = PARSERS[v]()
+    p = mkparser(v)
     if not raw:
         r = call(p.parse, text)
         if r[0] == 'ok':
@@ -87,7 +97,7 @@ def eparse(v, text, raw=False):
         if r[1] == 'XPST0003':
             return ('syntax',)
         code = r[1]
-        p = PARSERS[v]()
+        p = mkparser(v)
     else:
         code = 'forced'
     r = call(_tdop.Parser.parse, p, text)
@@ -1080,6 +1090,9 @@ def check_hashseed(case, out):
 # ------------------------------------------------------------------------------ harness interface
 def check_case(kind, case):
     out = Outcome()
+    _MODE['compat'] = bool(case.get('compat'))
+    if _MODE['compat']:
+        out.dim('compat_mode_cases:' + case.get('v', '?'), kind)
     if kind == 'grammar':
         check_grammar(case, out)
     elif kind == 'layout':
@@ -1094,6 +1107,15 @@ def check_case(kind, case):
 
 
 def shrink(kind, case):
+    for cand in _shrink(kind, case):
+        if case.get('compat'):
+            cand['compat'] = True
+        yield cand
+    if case.get('compat'):
+        yield {k: x for k, x in case.items() if k != 'compat'}
+
+
+def _shrink(kind, case):
     if kind == 'grammar':
         for cand in reductions(case['items']):
             if well_formed(cand):
@@ -1202,23 +1224,33 @@ def run(h):
                     h.case('grammar', {'v': v, 'items': items})
                     if len(texts[v]) < 400 and r.random() < 0.2:
                         texts[v].append(G.flat(items))
+                    if decor and v != '1.0':
+                        # the same grammar must hold for a 2.0+ parser in XPath 1.0 compatibility mode
+                        h.case('grammar', {'v': v, 'items': build_seq(r, v, [a, b], decor), 'compat': True})
     # 2. random longer sequences
     for v in G.VERSIONS:
         for _ in range(h.n(700 if v != '1.0' else 400)):
             items = g_random_seq(r, v, 2, 4)
-            h.case('grammar', {'v': v, 'items': items})
+            if v != '1.0' and r.random() < 0.25:
+                h.case('grammar', {'v': v, 'items': items, 'compat': True})
+            else:
+                h.case('grammar', {'v': v, 'items': items})
             if len(texts[v]) < 800 and r.random() < 0.4:
                 texts[v].append(G.flat(items))
     # 3. source round trip of the hand-written corpus
     for v in G.VERSIONS:
         for e in corpus_for(v):
             h.case('source', {'v': v, 'e': e, 'valid': True})
+            if v != '1.0':
+                h.case('source', {'v': v, 'e': e, 'valid': True, 'compat': True})
     # 4. layout variants
     for v in G.VERSIONS:
         pool = corpus_for(v) + texts[v]
         for _ in range(h.n(900)):
             lay = g_layout(r, v, r.choice(pool))
             if lay is not None:
+                if v != '1.0' and r.random() < 0.2:
+                    lay['compat'] = True
                 h.case('layout', lay)
     # 5. hash seeds
     if h.tier == 'quick' or h.nshards == 1:
@@ -1243,6 +1275,9 @@ def floors(v):
         need = 60 if ver == '1.0' else 150
         if npairs < need:
             reasons.append('only %d distinct precedence-level pairs exercised for XPath %s' % (npairs, ver))
+    for ver in G.VERSIONS[1:]:
+        if v.got('compat_mode_cases:' + ver) < 300:
+            reasons.append('fewer than 300 cases with an XPath %s parser in compatibility mode' % ver)
     if v.got('grammar_agree', 'same-tree') < 2000:
         reasons.append('fewer than 2000 flat/parenthesised tree comparisons agreed')
     if v.got('grammar_agree', 'both-syntax-error') < 50:
